@@ -35,6 +35,7 @@ CHECK = {
             "a consumer that receives 0-3 alerts at arbitrary points; the case ends with a full drain; "
             "glue cases: informer kind (disk freespace / reposize, numpin) x RPC outcome (no client, failing IPFSConnector, answer with sizes 0, "
             "2^63, 2^64-1, equal, size > max) x TTL, or an api.Metric with an expiry 1 ms - 1 h before / after now, SetTTL of a negative duration, Expire 0 / MaxInt64 / MinInt64; "
+            "cadence lines: loop kind x TTL x error pattern (none, every k-th publish fails, a burst, i<k> = the informer's k-th RPC fails once); "
             "a timed run whose real timestamps do not confirm the nominal order with 5 ms to spare is re-run (3x) and then counted inconclusive",
     "trusted_base": ["harness copies of two dispatches: Watch's tick (CheckPeers(peerset) / CheckAll / nothing) and, in the history suite only, "
                      "LatestMetrics = LatestValid + PeersetFilter (the monitor suite runs the real pubsubmon.Monitor.LatestMetrics)",
@@ -48,6 +49,8 @@ CHECK = {
                      "glue suite: `exp=in` (Expire within [call start + TTL, call end + TTL]) is computed by the harness; delivery of a published metric is "
                      "decided by a later valid marker message on the same topic plus a 400 ms grace period (pubsub validates messages concurrently, the marker may overtake)",
                      "/repo/monitor/pubsubmon/verif_export_c09.go (build tag verif): VerifStore / VerifChecker accessors",
+                     "harness/extract_c09.rearmProg (round 8c): the loop of pushInformerMetrics by statement shape (exact text of the select and the send, one Reset per branch, `continue` last); "
+                     "cadence i<k>: harness/c09/cadinf.go wraps the real pubsubmon.Monitor only to record call instants, Discard() at the call and the returned error; the nominal schedule assumes the timer fires exactly after its delay",
                      "verif_export.go wrappers (VerifNewCluster, VerifPushInformerMetrics, VerifPushPingMetrics) and common.StoreMonitor as recording monitor"],
     "assumptions": ["history / monitor / timed / watch / recv suites and C09_holds: the consumer of Alerts() receives every alert of a check before the next "
                     "check (the channel never fills up); the chan suite and the Chan theorems drop this assumption for one metric name and CheckPeers",
@@ -77,7 +80,11 @@ META = {
             "theorems for every ring / state that the interpreted programs are the model's functions (the peerset of LatestMetrics is asked for at the query), refutations for "
             "store-after-advance, read-at-cursor and a remembered peerset; api.Metric time functions (strict expiry, negative TTL, zero Expire); the informers' metric construction "
             "(no client / RPC error never valid and never on the wire, answered RPC valid for exactly one TTL, free space never underflows), driven through the real informers and the real PublishMetric (suite glue); "
-            "a malformed message changes nothing; a failing peerset function skips the round and keeps the pending alert; cadence measured on the real loops with millisecond TTLs (corpus cases in quick, random cases in thorough).",
+            "a malformed message changes nothing; a failing peerset function skips the round and keeps the pending alert; cadence measured on the real loops with millisecond TTLs (corpus cases in quick, random cases in thorough); "
+            "round 8c: the loop body of Cluster.pushInformerMetrics is translated (go/ast) into a program the model interprets (which condition takes the retry-sooner branch, both divisors); "
+            "theorems: the shipped body re-arms at TTL/2 after an invalid metric that PublishMetric dropped with a nil error, so after ONE failed informer RPC the next attempt is not before the expiry "
+            "of the last delivered metric (refutation shipped_retries_late), a body that treats the dropped metric as an error retries strictly before it (every TTL > 0); cadence lines i<k> reproduce it with the real "
+            "disk.Informer (k-th RepoStat fails), the real loop and the real PublishMetric: late=1 on today's tree (proposed known finding, notes Round 8c), and the driver compares every informer cadence line with the nominal schedule of the regenerated body.",
     "note": "Trusted: Lean kernel (+propext, Classical.choice, Quot.sound), the hand-written model/spec, the Go harness. The phi float arithmetic is an oracle.",
     "technique": "Lean 4 invariants over histories + differential correspondence with the real monitor code",
 }
